@@ -38,7 +38,7 @@ Merge(a, b) ==
   ELSE MFail
 
 \* ---- denotation of a circuit on NMod modes --------------------------------------------------
-AllGaussian(c)  == \A i \in DOMAIN c : c[i].name \in Symp1Names \cup Symp2Names \cup SympNNames \cup DispNames \cup ChanNames \cup PrepNames
+AllGaussian(c)  == \A i \in DOMAIN c : c[i].name \in Symp1Names \cup Symp2Names \cup SympNNames \cup DispNames \cup ChanNames \cup PrepNames \cup MBNames
 a345o == <<Q(3, 5), Q(4, 5)>>
 ProbeOps(n)     == IF n = 1 THEN << Op("Sgate", <<Q(3, 2), a345o>>, <<0>>), Op("Dgate", <<Q(1, 2), APi2>>, <<0>>) >>
                    ELSE << Op("S2gate", <<Q(3, 2), A0>>, <<0, 1>>), Op("Sgate", <<Q(2, 1), a345o>>, <<n - 1>>),
